@@ -3,5 +3,10 @@ add("C19",
     "Trusted: the simulated communicator implements MPI's reliable, per-channel non-overtaking semantics; result messages stay below the eager limit; real MPI progress engines and real spawn pools are outside the simulator.",
     "deterministic simulation: seeded scheduler over baton-passed rank threads, virtual clock, latency/stall/rendezvous injection",
     "DESIGN.md §4 C19")
-for _p in ("C01", "C05", "C06", "C09", "C13", "C15", "C17", "C18"):
+add("C18",
+    "Seeded search over histories of update_resistances (random, uniform rescaling, single edge) interleaved with every resistive query on one long-lived ResNetwork; after every step each value is compared with an independent float64 circuit model of the *current* resistances and the circuit laws (metric, path bound, Foster, series/parallel closed forms, scaling across an update) are evaluated on the object's own answers. Sampling, not enumeration.",
+    "Trusted: the float64 reference circuit (numpy pinv, explicit loops); VCFB judged without end-point terms; float32 kernels compared with a stated absolute floor.",
+    "deterministic simulation: seeded operation histories against an executable reference model",
+    "DESIGN.md §4 C18")
+for _p in ("C01", "C05", "C06", "C09", "C13", "C15", "C17"):
     PENDING[_p] = "in the family (DESIGN §4) but its check is not built yet in this commit; not claimed until it is"
